@@ -115,6 +115,12 @@ class Exec:
         self.share = real.endswith("-shared")
         self.cond_cache = {}
         real = real[:-7] if self.share else real
+        # "guarded-sameobj": ONE guarded(cond) decorator object per kind of condition, re-entered when a region of that
+        # kind contains another one (a recursive @guarded function, one decorator object on two functions)
+        self.sameobj = real == "guarded-sameobj"
+        self.gcache = {}
+        if self.sameobj:
+            real = "guarded"
         self.real = real
         self.report = report
         self.model = []          # values of the active secret conditions
@@ -230,7 +236,12 @@ class Exec:
         depth = len(self.model)
         try:
             if self.real == "guarded":
-                rt.guarded(cond)(body)()
+                if self.sameobj and c in ("b1", "b0", "s1", "s0"):
+                    if c not in self.gcache:
+                        self.gcache[c] = rt.guarded(cond)
+                    self.gcache[c](body)()
+                else:
+                    rt.guarded(cond)(body)()
             elif self.real == "ite-then":
                 r = H.branching.if_then_else(cond, body, 7)
                 if refuse is None:
@@ -423,7 +434,7 @@ def _task(t):
         st["histories"] += 1
         kinds = region_conds(tree)
         repeated = len(kinds) != len(set(kinds))
-        for real in REALS + ["else"] + (["guarded-shared", "if-shared", "ite-then-shared"] if repeated else []):
+        for real in REALS + ["else"] + (["guarded-shared", "if-shared", "ite-then-shared", "guarded-sameobj-shared"] if repeated else []):
             if not applicable(tree, real[:-7] if real.endswith("-shared") else real):
                 continue
             vs, ev, sts, skipped = run_tree(tree, real, p)
@@ -564,7 +575,7 @@ def run(ctx):
             for lvl in range(depth - 1, -1, -1):
                 c = ("b0" if lvl % 2 == 0 else "s0") if lvl == falsepos else ("b1" if lvl % 2 == 0 else "s1")
                 tree = (("op",), ("region", c, tree), ("op",))
-            for real in ("guarded", "if", "ite-then", "guarded-shared"):
+            for real in ("guarded", "if", "ite-then", "guarded-shared", "guarded-sameobj-shared"):
                 if real == "ite-then":
                     t2 = (("op",),)
                     for lvl in range(depth - 1, -1, -1):
